@@ -236,7 +236,11 @@ def gen_tree(rng, allow_float, odd):
     if rng.random() < 0.85:
         kv.append(["id", lf()])
     if rng.random() < 0.6:
-        kv.append(["info", ["d", [["type", lf()], ["sub", ["d", [["x", lf()]]]]]]])
+        info = [["type", lf()], ["sub", ["d", [["x", lf()]]]]]
+        if rng.random() < 0.5:
+            # (round 9) a FIELD below a structure: the remaining path handed to the items starts behind the field's own name, at any depth
+            info.append(["mods", ["l", [["d", [["hw", lf()], ["deep", ["d", [["z", lf()]]]]]] for _ in range(rng.choice([0, 1, 2, 3]))]]])
+        kv.append(["info", ["d", info]])
     if rng.random() < 0.5:
         n = rng.choice([0, 1, 2, 2, 3])
         items = [["d", [["type", lf()]]] for _ in range(n)]
@@ -261,7 +265,7 @@ def gen_tree(rng, allow_float, odd):
     return ["d", kv]
 
 
-PATHS = [("id",), ("info", "type"), ("info", "sub", "x"), ("items", "type"), ("tab", "type"), ("tab",), ("nrc",)]
+PATHS = [("id",), ("info", "type"), ("info", "sub", "x"), ("items", "type"), ("tab", "type"), ("tab",), ("nrc",), ("info", "mods", "hw"), ("info", "mods", "deep", "z")]
 ODD_PATHS = [("info",), ("id", "x"), ("items",), ("nul",), ("nul", "x"), ("tab", "type", "x"), ("nope",), ("", "id"), ("info", "", "type")]
 
 
